@@ -21,6 +21,7 @@ import (
 	metav1 "k8s.io/apimachinery/pkg/apis/meta/v1"
 	"tkestack.io/galaxy/pkg/ipam/api"
 	"tkestack.io/galaxy/pkg/ipam/floatingip"
+	"tkestack.io/galaxy/pkg/ipam/schedulerplugin/util"
 
 	"gxverif/hx"
 	"gxverif/plugin"
@@ -58,6 +59,13 @@ func PostPool(c *api.PoolController, name string, size int, pre bool) (PoolReply
 		st = 200
 	}
 	return PoolReply{Status: st, Real: out.RealPoolSize}, o
+}
+
+func untilde(s string) string {
+	if s == "~" {
+		return ""
+	}
+	return s
 }
 
 func atoiDef(s string) int { n, _ := strconv.Atoi(s); return n }
@@ -163,6 +171,21 @@ func PoolCount(w *plugin.World, name string) int {
 // handler, everything else through the plugin harness.  Choices written `?` are replaced by the observed ones.
 func Apply(w *plugin.World, line string) (final, result string) {
 	f := strings.Fields(line)
+	if len(f) == 9 && f[0] == "release" && f[1] == "?" {
+		// `release ? <key fields> …`: the (lowest) address currently stored under that key - lets a committed history name
+		// an address the real IPAM picked at random
+		k := util.NewKeyObj(untilde(f[2]), untilde(f[3]), untilde(f[4]), untilde(f[5]), untilde(f[6]))
+		for _, r := range w.IPAMDump() {
+			if !r.Free && r.Key == k.KeyInDB {
+				f[1] = strconv.FormatUint(uint64(r.IP), 10)
+				break
+			}
+		}
+		if f[1] == "?" {
+			f[1] = "0"
+		}
+		return w.Apply(strings.Join(f, " "))
+	}
 	if len(f) != 7 || f[0] != "apipool" {
 		return w.Apply(line)
 	}
